@@ -71,6 +71,9 @@ impl Map {
 struct World {
     terms: Vec<Term>, // index 0 unused
     devs: Vec<Device>,
+    // family "follow": the scripted getters the device's own terminals follow (index = terminal)
+    sget: Vec<Option<Scripted<Datum<State>>>>,
+    cget: Vec<Option<Scripted<Datum<Command>>>>,
 }
 
 fn build(scen: &Value, m: &Map) -> Result<World, String> {
@@ -154,7 +157,8 @@ fn build(scen: &Value, m: &Map) -> Result<World, String> {
             None => &*leak(Terminal::<E>::new()),
         })
         .collect();
-    let w = World { terms, devs };
+    let n = terms.len();
+    let w = World { terms, devs, sget: (0..n).map(|_| None).collect(), cget: (0..n).map(|_| None).collect() };
     let _ = m;
     Ok(w)
 }
@@ -252,7 +256,9 @@ fn magnitude(beh: &Value) -> f64 {
 
 fn replay(beh: &Value, line: usize, m: &Map, rep: &mut Report, observe: &str) {
     // "times": presence and timestamps of everything, values ignored (C03)
-    let (ob_state, ob_cmd, ob_data) = (observe != "cmd", observe != "state", observe == "all" || observe == "times");
+    // "ret": only what following is about (C15): return values, and the own slots after an update that a followed getter's error aborted
+    let ret_only = observe == "ret";
+    let (ob_state, ob_cmd, ob_data) = (observe != "cmd" && !ret_only, observe != "state" && !ret_only, observe == "all" || observe == "times");
     let scen = &beh["scen"];
     let steps = beh["steps"].as_array().unwrap();
     let mag = if observe == "times" { 1e300 } else { magnitude(beh) * 2f64.powi(m.scale_pow2) };
@@ -275,10 +281,31 @@ fn replay(beh: &Value, line: usize, m: &Map, rep: &mut Report, observe: &str) {
         }
     };
     let nt = i(scen, "nt") as usize;
+    // return values belong to the following property (C15): the state-only and command-only observers (C08, C13) leave out the
+    // behaviours of the follow family in which a followed getter reports an error
+    let rets = observe == "all" || ret_only;
+    if s(beh, "family") == "follow" && !rets && steps.iter().any(|st| s(&st["a"], "op") == "getter" && st["a"]["o"]["c"] == "err") {
+        rep.count("skipped_error_behaviours", 1);
+        return;
+    }
     for (idx, st) in steps.iter().enumerate() {
         let a = &st["a"];
         let r: Result<NothingOrError<E>, String> = match s(a, "op") {
             "init" => {
+                // family "follow": every own terminal of the device follows a getter of state data and a getter of command data
+                if s(beh, "family") == "follow" {
+                    let k = scen["devs"][0]["terms"].as_array().unwrap().len();
+                    for x in 1..=k {
+                        let sg = Scripted::<Datum<State>>::new();
+                        let cg = Scripted::<Datum<Command>>::new();
+                        let sref: Reference<dyn Getter<Datum<State>, E>> = to_dyn!(Getter<Datum<State>, E>, sg.getter.clone());
+                        let cref: Reference<dyn Getter<Datum<Command>, E>> = to_dyn!(Getter<Datum<Command>, E>, cg.getter.clone());
+                        <Terminal<E> as Settable<Datum<State>, E>>::follow(&mut w.terms[x].borrow_mut(), sref);
+                        <Terminal<E> as Settable<Datum<Command>, E>>::follow(&mut w.terms[x].borrow_mut(), cref);
+                        w.sget[x] = Some(sg);
+                        w.cget[x] = Some(cg);
+                    }
+                }
                 // initial own data of the match families
                 let obs = st["obs"].as_array().unwrap();
                 // initial links (fresh terminals: a plain connect of each pair)
@@ -314,6 +341,27 @@ fn replay(beh: &Value, line: usize, m: &Map, rep: &mut Report, observe: &str) {
                 let dev = &mut w.devs[j];
                 catch(|| dev.update())
             }
+            "getter" => {
+                // what a followed getter returns from now on; the OUTER datum's timestamp is irrelevant to following (only its value, the
+                // datum to be set, is forwarded), so it gets a recognisable wrong time
+                let x = i(a, "x") as usize;
+                let o = &a["o"];
+                let outer = Time(424_242 - idx as i64);
+                if s(a, "which") == "s" {
+                    w.sget[x].as_ref().unwrap().set(match s(o, "c") {
+                        "err" => Err(mk_err(i(o, "e"))),
+                        "none" => Ok(None),
+                        _ => Ok(Some(Datum::new(outer, Datum::new(m.time(i(o, "t")), State::new_raw(m.val(&o["v"][0]), m.val(&o["v"][1]), m.val(&o["v"][2])))))),
+                    });
+                } else {
+                    w.cget[x].as_ref().unwrap().set(match s(o, "c") {
+                        "err" => Err(mk_err(i(o, "e"))),
+                        "none" => Ok(None),
+                        _ => Ok(Some(Datum::new(outer, Datum::new(m.time(i(o, "t")), Command::new(pdk(i(&o["v"], "k")), m.val(&o["v"]["v"])))))),
+                    });
+                }
+                Ok(Ok(()))
+            }
             "connect" => {
                 let (x, y) = (i(a, "i") as usize, i(a, "j") as usize);
                 catch(|| {
@@ -333,8 +381,15 @@ fn replay(beh: &Value, line: usize, m: &Map, rep: &mut Report, observe: &str) {
                 std::process::exit(2)
             }
         };
-        match &r {
-            Ok(Ok(())) => {}
+        match (&r, a.get("ret")) {
+            // an update whose return value the specification predicts (an error of a followed getter is propagated)
+            (_, Some(exp)) if rets && (exp["c"] == "err" || s(beh, "family") == "follow") => {
+                if !ret_matches(exp, &r) {
+                    bad(rep, idx, "return value of the device update (a followed getter's error is propagated, otherwise Ok)", exp.clone(), ret_json(&r));
+                    return;
+                }
+            }
+            (Ok(Ok(())), _) => {}
             _ => {
                 bad(rep, idx, "the operation must return Ok and must not panic", a.clone(), ret_json(&r));
                 return;
@@ -376,11 +431,12 @@ fn replay(beh: &Value, line: usize, m: &Map, rep: &mut Report, observe: &str) {
                 bad(rep, idx, &format!("command read of terminal {x}"), o["cmd"].clone(), js_cmd(&gc));
                 return;
             }
-            if ob_state && !cmp_state(&o["ost"], &os, m, mag) {
+            let aborted = ret_only && s(a, "op") == "update" && a["ret"]["c"] == "err";
+            if (ob_state || aborted) && !cmp_state(&o["ost"], &os, m, mag) {
                 bad(rep, idx, &format!("own state (last request) of terminal {x}"), o["ost"].clone(), js_state(&os));
                 return;
             }
-            if ob_cmd && !cmp_cmd(&o["ocmd"], &oc, m, mag) {
+            if (ob_cmd || aborted) && !cmp_cmd(&o["ocmd"], &oc, m, mag) {
                 bad(rep, idx, &format!("own command (last request) of terminal {x}"), o["ocmd"].clone(), js_cmd(&oc));
                 return;
             }
